@@ -83,15 +83,9 @@ impl<'a> IntoIterator for &'a Cfg {
 #[allow(clippy::mutable_key_type)]
 pub fn in_source_order(set: &HashSet<Rc<CfgNode>>) -> Vec<Rc<CfgNode>> {
     let mut nodes = set.iter().cloned().collect::<Vec<_>>();
-    nodes.sort_by_key(|node| {
-        let range = node.range();
-        (
-            range.start().raw_index(),
-            range.end().raw_index(),
-            node.is_function_entry(),
-            node.file(),
-        )
-    });
+    // Offsets are only comparable within one file, and file ids are random:
+    // the index in the program is neither
+    nodes.sort_by_key(|node| node.position());
     nodes
 }
 
@@ -255,6 +249,9 @@ impl Cfg {
             }
         }
 
+        for (position, node) in nodes.iter().enumerate() {
+            node.set_position(position);
+        }
         #[cfg(feature = "rva_verif")]
         crate::verif::register_nodes(&nodes);
         Ok(Cfg {
